@@ -373,4 +373,60 @@ theorem log_history (ops : List Op) (d : AttData) (b : Bits) (sg : Nat) (c : Lis
   · simp [SPools.new] at hm
   · exact h
 
+/-! ## double votes -/
+
+theorem spec_single_accepted {log : AttSpec} {a : Att} {c : List Nat} {v : Nat}
+    (h1 : onesCount a.bits = 1) (hv : singleParticipant a.bits c = .ok v)
+    (hok : (Spec.add log a c).2 = true) :
+    singleVote (Spec.add log a c).1 v a.data.target = some a.data := by
+  rw [spec_add_eq, if_neg (by omega), if_pos h1] at hok ⊢
+  unfold specAddSingle at hok ⊢
+  rw [hv] at hok ⊢
+  dsimp only at hok ⊢
+  cases hs : singleVote log v a.data.target with
+  | some d' =>
+    rw [hs] at hok; dsimp only at hok ⊢
+    rw [hs, of_decide_eq_true hok]
+  | none =>
+    dsimp only
+    unfold singleVote at hs ⊢
+    rw [List.findSome?_append, hs]
+    simp
+
+theorem spec_single_conflict {log : AttSpec} {a : Att} {c : List Nat} {v : Nat} {d : AttData}
+    (h1 : onesCount a.bits = 1) (hv : singleParticipant a.bits c = .ok v)
+    (hs : singleVote log v a.data.target = some d) (hd : d ≠ a.data) :
+    (Spec.add log a c).2 = false := by
+  rw [spec_add_eq, if_neg (by omega), if_pos h1]
+  unfold specAddSingle
+  rw [hv]; dsimp only
+  rw [hs]; dsimp only
+  exact decide_eq_false hd
+
+theorem spec_agg_all_voted {log : AttSpec} {a : Att} {c : List Nat}
+    (h2 : 2 ≤ onesCount a.bits) (hnew : aggsFor log a.data = [])
+    (hall : ∀ v ∈ participants a.bits c, votedAgg log v a.data.target = true) :
+    (Spec.add log a c).2 = false := by
+  rw [spec_add_eq, if_neg (by omega), if_neg (by omega)]
+  split
+  · rfl
+  · unfold specAddAgg
+    rw [hnew]; dsimp only
+    have : (participants a.bits c).any (fun v => !votedAgg log v a.data.target) = false := by
+      rw [List.any_eq_false]
+      intro v hv; simp [hall v hv]
+    rw [this]; rfl
+
+theorem spec_addMessage_snd (s : SyncSpec) (m : SyncMsg) : (s.addMessage m).2 = inWindow s.cur m.slot := by
+  unfold SyncSpec.addMessage; split <;> simp_all
+
+theorem spec_addContribution_snd (s : SyncSpec) (c : Contrib) :
+    (s.addContribution c).2 = inWindow s.cur c.slot := by
+  unfold SyncSpec.addContribution; split <;> simp_all
+
+theorem outOfBool_eq_ite (b : Bool) : outOfBool b = if b then .ok else .err := rfl
+
+theorem spec_reset_cur (s : SyncSpec) (slot : UInt64) : (s.reset slot).cur = slot := by
+  unfold SyncSpec.reset; split <;> rfl
+
 end Zrnt.Pool
